@@ -37,8 +37,9 @@ NoResp      == {<<"abandon", 0, 0, <<>>>>, <<"abandon", 1, 0, <<>>>>, <<"abandon
 BaseNoResp  == {<<"abandon", 1, 0, <<>>>>, <<"unbind", 0, 0, <<>>>>}
 NonOpCalls  == {<<"last_id", 0, 0, <<>>>>, <<"is_closed", 0, 0, <<>>>>, <<"get_peer_certificate", 0, 0, <<>>>>, <<"noop", 0, 0, <<>>>>}
 
-Mods8 == {<<c, t, o>> : c \in {0, 1}, t \in {0, 1}, o \in {0, 1}} \cup {<<2, 0, 0>>, <<2, 1, 1>>}
-Mods1 == {<<1, 0, 0>>, <<0, 1, 0>>, <<0, 0, 1>>, <<2, 1, 1>>}
+\* (control token 3 = with_controls called with an EMPTY list: the request carries an empty Controls element)
+Mods8 == {<<c, t, o>> : c \in {0, 1}, t \in {0, 1}, o \in {0, 1}} \cup {<<2, 0, 0>>, <<2, 1, 1>>, <<3, 0, 0>>}
+Mods1 == {<<1, 0, 0>>, <<0, 1, 0>>, <<0, 0, 1>>, <<2, 1, 1>>, <<3, 0, 0>>}
 Plain == {<<0, 0, 0>>}
 
 (* all steps for the given call variants, modifier triples and behaviours *)
